@@ -16,8 +16,30 @@ from props.c13 import selftest_reject
 MINE = {"ProposedAccepted"}
 
 
+KNOWN_SIDE_EFFECT_TYPES = {18: "DelegateTx", 10: "KillInviteeTx", 20: "KillDelegatorTx"}
+
+
 def describe(clause, row, rows, line):
     bad = {k: v for k, v in row.get("verdicts", {}).items() if v != "ok"}
+    diag = row.get("diag") or {}
+    if diag and set(bad.values()) == {"roots-mismatch"} and len(bad) == len(row.get("verdicts", {})) and not diag.get("nondet") \
+            and diag.get("sameBodyThroughValidatingPathAccepted"):
+        # every replica, the proposer included, deterministically refuses the proposal, while the SAME body assembled through
+        # the validating path is accepted by everybody: the building path left something in the proposer's check state.
+        culprits = [x for x in (diag.get("skipped") or []) if x.get("type") in KNOWN_SIDE_EFFECT_TYPES and not x.get("toHasIdentityRecord")]
+        if culprits:
+            key = "ProposedAccepted:filter-skipped-tx-leaves-empty-identity-record"
+            what = ("block %s of history %s: the proposer's filter attempted and skipped %s whose recipient has no identity record; validating it reads "
+                    "StateDB.Delegatee / GetInviter, which CREATE (and dirty) an empty identity object, so the proposer's check state - and the roots it "
+                    "puts in the header - contain a record no validator computes; every replica including the proposer refuses the block (chain stalls "
+                    "while the transactions sit in the pools). Body types %s; the same body through the validating path is accepted by all." % (
+                        row.get("h"), row.get("hid"),
+                        json.dumps([{"type": KNOWN_SIDE_EFFECT_TYPES[c["type"]], "to": c.get("to")} for c in culprits]),
+                        sorted({t.get("type") for t in (row.get("txs") or [])})))
+            return key, what
+        key = "ProposedAccepted:filter-side-effect:%s" % ",".join(str(x.get("type")) for x in (diag.get("skipped") or []))
+        return key, "block %s of history %s: building path and validating path of the same node disagree deterministically; skipped by the filter: %s" % (
+            row.get("h"), row.get("hid"), json.dumps(diag.get("skipped")))
     types_in = sorted({t.get("type") for t in (row.get("txs") or [])} | {s.get("type") for s in (row.get("subs") or []) if s.get("pool") == "ok"})
     errs = sorted(set(bad.values()))
     key = "ProposedAccepted:%s:%s" % (row.get("kind"), "|".join(e[:40] for e in errs))
@@ -29,7 +51,7 @@ def describe(clause, row, rows, line):
 def main(ctx):
     quick = ctx.tier == "quick"
     r, sched, samples = export_schedules(ctx, 8 if quick else 64)
-    trace, stats, out = chainlib.run_histories(ctx, quick, extra_args=["-big"], sched=sched)
+    trace, stats, out = chainlib.run_histories(ctx, quick, extra_args=["-big", "-double-delegate"], sched=sched)
     if stats is None:
         raise vlib.CheckError("driver failed:\n" + out[-3000:])
     ok, info = chainlib.validate(ctx, trace, "Trace_Replicas.tla", "Trace_Replicas.cfg", MINE, "C02", describe)
@@ -48,8 +70,10 @@ def main(ctx):
                 row["verdicts"][k] = "invalid block cid"
                 return rows_
         return None
-    if ok:
-        selftest_reject(ctx, "Trace_Replicas.tla", "Trace_Replicas.cfg", trace, mutate, n_lines=60)
+    # binding self-test on the ordinary histories (the minimal known-finding scenario, history 900, is refused by design)
+    st_trace = ctx.path("selftest_src.ndjson")
+    vlib.write_ndjson(st_trace, [x for x in rows if x.get("hid") != 900][:80])
+    selftest_reject(ctx, "Trace_Replicas.tla", "Trace_Replicas.cfg", st_trace, mutate, n_lines=60)
     cov = {"states": r.distinct, "transitions": r.generated,
            "traces_validated_against_impl": stats.get("histories", 0),
            "proposals": len(blocks), "txs_offered": offered, "txs_included": included, "tx_types_included": types_in,
